@@ -212,12 +212,91 @@ func c09Scenario(c *choice.Ctx, rep *report.R) {
 	rep.State(desc)
 }
 
+// c09LocalReplies: responses the proxy builds itself (NOTIMP for unsupported queries, REFUSED without a rule, SERVFAIL for a
+// failing upstream) and ordinary small answers, to queries that arrive with the TC bit (and other header bits) set: nothing is
+// omitted from these few octets, so TC is clear.
+func c09LocalReplies(c *choice.Ctx, rep *report.R) {
+	own := env.InstallOwn(0xA5, vRace)
+	defer env.UninstallOwn()
+	seam := c03Seams[c.Choose(len(c03Seams), "seam")]
+	kinds := []string{"rd0->NOTIMP", "opcode2->NOTIMP", "two-questions->NOTIMP", "no-rule->REFUSED", "upstream-fails->SERVFAIL", "answered"}
+	kind := kinds[c.Choose(len(kinds), "kind")]
+	bits := []uint16{refdns.BitTC, refdns.BitTC | refdns.BitAA | refdns.BitAD | refdns.BitCD}[c.Choose(2, "query-bits")]
+	desc := fmt.Sprintf("seam=%s query with header bits %#04x, %s", seam.name, bits, kind)
+	fail := func(sig, msg string) {
+		rep.Violate("C09:listener:"+seam.name+":local-reply:"+sig, msg+"\n  "+desc, map[string]any{"Choices": c.Choices(), "Local": true})
+	}
+	rule := "forward"
+	if kind == "no-rule->REFUSED" {
+		rule = "no-rule"
+	}
+	v, err := vNewRouter(c03Config(rule), "u1")
+	if err != nil {
+		fail("router-start", err.Error())
+		return
+	}
+	defer v.Close()
+	v.ups["u1"].Auto = func(q *upQuery) *upResult {
+		if kind == "upstream-fails->SERVFAIL" || q.Msg == nil {
+			return &upResult{err: errScripted}
+		}
+		return &upResult{wire: env.Answer(q.Msg, 1, 60).Encode(false)}
+	}
+	q := refdns.Query(0x0955, refdns.N("tc", "example", "test"), 1, 1)
+	q.Bits |= bits
+	switch kind {
+	case "rd0->NOTIMP":
+		q.Bits &^= refdns.BitRD
+	case "opcode2->NOTIMP":
+		q.Bits |= 2 << 11
+	case "two-questions->NOTIMP":
+		q.Q = append(q.Q, refdns.Q{Name: refdns.N("other", "test"), Type: 1, Class: 1})
+	}
+	cl := seam.open(v)
+	cl.send(q)
+	wait()
+	hsleep(100 * time.Millisecond)
+	wait()
+	msgs, raws := cl.responses()
+	if len(raws) != 1 {
+		fail("response-count", fmt.Sprintf("%d responses", len(raws)))
+		return
+	}
+	if msgs[0] == nil {
+		fail("undecodable", fmt.Sprintf("%x", raws[0]))
+		return
+	}
+	if msgs[0].Has(refdns.BitTC) {
+		fail("tc-set-on-complete-message", fmt.Sprintf("the %d octet response (rcode %s) has TC set although nothing was omitted", len(raws[0]), rcodeName(msgs[0].RCode())))
+	}
+	cl.close()
+	v.Close()
+	wait()
+	for _, x := range own.Audit() {
+		fail("ownership", x)
+	}
+	rep.Eval(desc + fmt.Sprintf("=>%d", msgs[0].RCode()))
+	rep.State(desc)
+}
+
 func TestVerifC09Listeners(t *testing.T) {
 	rep := report.New(map[bool]string{false: "C09 listener size limits", true: "C13 framing of the largest responses"}[c09AsC13])
 	defer rep.Write()
 	rep.Rule = fmt.Sprintf("E3: real router+cache, auto-answering upstream returning %v TXT records of 255 bytes (uncompressed sizes from 60 bytes to ~130 KiB) through every listener seam (udp, tcp, gnet, tls, http get/post, fasthttp get/post, quic), and (records=-1) answers composed so that the complete response is exactly limit-%d..limit+%d octets, one by one, with the listener's own encoding measured by two probe queries; "+
-		"UDP x advertised payload size %v (-1 = no OPT); stream seams x client OPT on/off; first (relayed) and second (cached) response; oracle: body <= max(512, advertised) on UDP and <= 65535 elsewhere, decodes cleanly, TC iff records omitted, nothing omitted when the uncompressed encoding fits, question and OPT retained, kept records in order", c09Sizes, c09W, c09W, c09Adv)
-	st := runExplore(t, rep, -1, func(c *choice.Ctx) { c09Scenario(c, rep) })
-	rep.Count("executions", st.Executions)
+		"UDP x advertised payload size %v (-1 = no OPT); stream seams x client OPT on/off; first (relayed) and second (cached) response; oracle: body <= max(512, advertised) on UDP and <= 65535 elsewhere, decodes cleanly, TC iff records omitted, nothing omitted when the uncompressed encoding fits, question and OPT retained, kept records in order; plus, per seam, queries arriving with TC (and AA/AD/CD) set that are answered NOTIMP / REFUSED / SERVFAIL by the proxy itself or answered normally: TC clear in the response", c09Sizes, c09W, c09W, c09Adv)
+	local := false
+	if rp := report.ReplayFile(); rp != nil {
+		var x struct{ Local bool }
+		rp.Decode(&x)
+		local = x.Local
+	}
+	if !local {
+		st := runExplore(t, rep, -1, func(c *choice.Ctx) { c09Scenario(c, rep) })
+		rep.Count("executions", st.Executions)
+	}
+	if (local || report.ReplayFile() == nil) && !c09AsC13 {
+		st := runExplore(t, rep, -1, func(c *choice.Ctx) { c09LocalReplies(c, rep) })
+		rep.Count("executions_local_replies", st.Executions)
+	}
 	rep.Sample(map[string]any{"seam": "tcp", "records": 300, "expect": "frame prefix == body length <= 65535, TC set, counts match"})
 }
